@@ -796,6 +796,108 @@ def wr6(p, res):
 
 
 # ------------------------------------------------------------------ NRM-1
+def wr2c(p, res, rule="WR-2"):
+    """raw column offsets: an index into `X.raw()` / `X.raw_mut()` that is computed from a column argument (`col * n * size`) and from strides (`size * 8`) uses the limb count of
+    X itself - the limb count of another operand addresses another column (or another object's memory) as soon as the two operands differ in size"""
+    n = 0
+    for f in sorted(p.lib_fns(), key=lambda x: x.uid):
+        if f.kind == "Closure" or not f.blocks or not f.uid.startswith(("poulpy_cpu_ref::reference", "poulpy_cpu_avx")):
+            continue
+        raws = {}  # local holding X.raw() -> operand param of X
+        flow = Flow(f, transparent=wr.VIEW_T)
+        for bi, t in f.calls():
+            if (f.callee_def(t) or {}).get("n") in ("raw", "raw_mut") and t["a"] and t.get("d"):
+                ps = [r[1] for r in flow.op_roots(t["a"][0]) if r[0] == "param"]
+                if len(ps) == 1:
+                    raws[t["d"][0]] = ps[0]
+        if len(set(raws.values())) < 2:
+            continue
+        sym = Sym(f, Flow(f))
+        plain = Flow(f)
+        # limb counts asserted equal (`assert_eq!(left.size(), right.size())`) are interchangeable
+        same = {}
+
+        def size_param(pl):
+            at = list(pl.atoms())
+            if len(pl.t) == 1 and len(at) == 1 and at[0][0] == "f" and at[0][1] == "size":
+                ps = [x[1] for mono, c in at[0][2][0] for x in mono if x[0] == "p"]
+                return ps[0] if len(ps) == 1 else None
+            return None
+        for blk in f.blocks:
+            for st in blk["s"]:
+                if st[0] == "A" and st[2]["k"] == "Bin" and st[2]["op"] == "Eq":
+                    a_, b_ = size_param(sym.operand(st[2]["o"][0])), size_param(sym.operand(st[2]["o"][1]))
+                    if a_ and b_ and a_ != b_:
+                        same.setdefault(a_, set()).add(b_)
+                        same.setdefault(b_, set()).add(a_)
+        # slicing sites: index / index_mut / get on a raw slice with a range whose start is a local
+        for bi, t in f.calls():
+            d = f.callee_def(t) or {}
+            if d.get("n") not in ("index", "index_mut") or len(t["a"]) != 2:
+                continue
+            base = None
+            for r in plain.op_roots(t["a"][0]):
+                if r[0] == "call" and f.blocks[r[1]]["t"].get("d") and f.blocks[r[1]]["t"]["d"][0] in raws:
+                    base = raws[f.blocks[r[1]]["t"]["d"][0]]
+            if base is None:
+                # through a copy of the raw slice local
+                for r in flow.op_roots(t["a"][0]):
+                    if r[0] == "call" and (f.callee_def(f.blocks[r[1]]["t"]) or {}).get("n") in ("raw", "raw_mut"):
+                        ps = [q[1] for q in flow.op_roots(f.blocks[r[1]]["t"]["a"][0]) if q[0] == "param"]
+                        if len(ps) == 1:
+                            base = ps[0]
+            if base is None:
+                continue
+            # the index locals feeding the range
+            idx_locals = set()
+            for r in plain.op_roots(t["a"][1]):
+                if r[0] == "agg":
+                    st = f.blocks[r[1]]["s"][r[2]][2]
+                    for o in st.get("o", []):
+                        if o[0] in ("c", "m") and len(o[1]) == 1:
+                            idx_locals.add(o[1][0])
+            # follow plain copies down to the (possibly loop-carried) index variables
+            chased = set()
+            todo = list(idx_locals)
+            while todo:
+                l = todo.pop()
+                if l in chased:
+                    continue
+                chased.add(l)
+                for dfn in plain.defs.get(l, []):
+                    if dfn[0] != "call" and dfn[4]["k"] in ("Use", "Cast") and dfn[4]["o"][0][0] in ("c", "m") and len(dfn[4]["o"][0][1]) == 1:
+                        todo.append(dfn[4]["o"][0][1][0])
+            idx_locals = chased
+            sizes = set()
+            for l in idx_locals:
+                for dfn in plain.defs.get(l, []):
+                    if dfn[0] == "call":
+                        continue
+                    v = sym.rvalue(dfn[4], (), 0, dfn[1], dfn[2])
+                    for a in _all_atoms(v):
+                        if a[0] == "f" and a[1] == "size":
+                            for mono, c in a[2][0]:
+                                for x in mono:
+                                    if x[0] == "p":
+                                        sizes.add(x[1])
+                    # one level through locals such as `b_row_size`
+                    for a in v.atoms():
+                        if a[0] == "phi":
+                            pass
+            if not sizes:
+                continue
+            n += 1
+            foreign = sorted(x for x in sizes if x != base and x not in same.get(base, ()))
+            pn = f.param_names()
+            if foreign:
+                res.bad(rule, f.pretty, "raw-offset-foreign-size:%s" % pn.get(base, "#%d" % base),
+                        "%s indexes the raw limbs of `%s` at an offset computed with the limb count of `%s`: with operands of different sizes the offset addresses another column"
+                        % (f.pretty, pn.get(base, "#%d" % base), ", ".join(pn.get(x, "#%d" % x) for x in foreign)), site=f.where(t["l"]))
+            else:
+                res.ok(rule, {"fn": f.pretty, "raw_operand": pn.get(base), "offset_sizes": "own"} if n % 4 == 1 else None)
+    return n
+
+
 def nrm2(p, res, rule="NRM-2"):
     """right shifts: every limb of the operand passes through the carry chain once, and the chain then crosses the `steps` limb positions the value is moved down by.  The number
     of chain steps (trip counts of the loops that hand the carry buffer to a normalisation step, plus helper loops over the carry) therefore equals  size(operand) + steps  for
@@ -1382,6 +1484,8 @@ def run(res, tier):
         res.floor("COL-2", "read operands indexed by a column loop", nc2, 10)
         n6 = wr6(p, res)
         res.floor("WR-6", "shape functions with a carry buffer", n6, 6)
+        n2c = wr2c(p, res)
+        res.floor("WR-2", "raw column offsets", n2c, 2)
         n2b = wr2b(p, res)
         res.floor("WR-2", "raw-offset writers of a column-selected output", n2b, 1)
         n8 = wr8(p, res)
